@@ -87,6 +87,7 @@ func memoControl(c *core.Ctx) string {
 // dependence, core.DepEngine) is one the key depends on too, is the container's
 // own root, or is a per-run singleton.
 func memoRule(c *core.Ctx, r *core.Report, rule string, scope func(fn *ssa.Function, rel string) bool, consequence string) {
+	r.Explain(rule + ": every get-or-compute cache in scope (a lookup in a persistent map / typeutil.Map / sync.Map whose hit is returned, and an update of the same container with a value not built from the hit; two-level caches included) stores only values whose inputs contribute to the key - at parameter level, at field level (key built from p.f while the value reads other fields of p or p as a whole) and for getter projections (m.Name() does not cover m.Pkg()); per-run singletons are exempt; positive controls from an embedded fixture are re-run on every check.")
 	if msg := memoControl(c); msg != "" {
 		r.Fail("infra.control", rule+"|memo-fixture", "", "the memo-key engine no longer passes its positive controls: "+msg)
 		return
